@@ -74,6 +74,8 @@ def walk_zone(args) -> list:
                 before = z.get_zone_interval(iv.start - eps)
                 fl["instant_before_start_is_outside"] = (iv.start - eps) not in iv and before != iv
             e["flags"] = fl
+            if zid.startswith("fixed:"):
+                e["fixed"] = int(zid[6:])
             evs.append(e)
             if not iv.has_end:
                 break
